@@ -17,6 +17,12 @@ def gen_verifier(tier, rng):
         parents.append(("aligned-end", raw, zlib.decompressobj(-15).decompress(raw)))
     for name, d in adler_edge_inputs(rng)[:5]:
         d = bytes(d); c = zlib.compressobj(6, zlib.DEFLATED, -15); parents.append((name, c.compress(d) + c.flush(), d))
+    # stored blocks of one and two bytes (what zlib writes at level 0 for tiny payloads; no block ISA-L makes is that short): the trailer then sits in
+    # the decoder's bit buffer together with the block's bytes
+    def stored(data, final): return bytes([1 if final else 0, len(data) & 255, len(data) >> 8, (len(data) ^ 0xffff) & 255, (len(data) ^ 0xffff) >> 8]) + bytes(data)
+    for a, b in ((1, 0), (2, 0), (1, 2), (2, 20), (3, 1)):
+        da, db = bytes(igz.corpus(rng, "text", a)), bytes(igz.corpus(rng, "text", b))
+        parents.append(("tiny-stored-%d-%d" % (a, b), (stored(da, False) + stored(db, True)) if b else stored(da, True), da + db))
     big = bytes(igz.corpus(rng, "text", 9000)); c = zlib.compressobj(6, zlib.DEFLATED, -15); bigraw = c.compress(big) + c.flush()
     for cls, raw, plain in parents:
         for mode in (1, 3, 5, 6):
@@ -98,6 +104,27 @@ def gen_producer(tier, rng):
                     k += 1
                     scns.append(igz.scenario(len(scns), "deflate", inp, level=level, wrap=wrap, lbuf=3, tail_ai=chunk, tail_ao=ao, cap=400000, mem=k % 3, meta={"family": "producer"}))
                 scns.append(igz.scenario(len(scns), "deflate_stateless", inp, level=level, wrap=wrap, lbuf=3, calls=[[n, n * 2 + 500, 0, 1]], meta={"family": "producer-oneshot"}))
+    # a flush left pending by a small output buffer, completed by a call that brings more input (the library then makes a second pass in the same
+    # call): every first-output size around the compressed size of the first piece; the trailer must cover every byte
+    seg = igz.corpus(rng, "text", 3000)
+    for level in range(4):
+        for wrap in (1, 3):
+            for ao in (list(range(900, 1700, 23)) if level == 0 else list(range(1000, 1500, 17))) if tier == "quick" else range(600, 2200, 3):
+                scns.append(igz.scenario(len(scns), "deflate", seg + seg[:700], level=level, wrap=wrap, lbuf=3, mem=ao % 3, calls=[[3000, ao, [1, 2][ao % 2], 0], [700, 1 << 16, [1, 2][ao % 2], 0], [0, 1 << 16, 0, 1]], tail_ao=1 << 16, cap=40,
+                                         meta={"family": "producer-pending-flush-then-more-input"}))
+    # the checksum kernels of other CPU generations (long 0xFF runs are the worst case of the Adler-32 accumulators)
+    ffs_list = [[255] * 12000 + igz.corpus(rng, "text", 100)]
+    for plen in (5552, 5568, 5600):          # a prefix that leaves the low half A just below 65521 at the start of a long 0xFF run (A near its maximum is the
+        target = 65400 - 1 + 65521 * 10      #  other ingredient of the worst case), for reduction blocks of 5552 bytes and a little more
+        pre = [target // plen] * plen
+        for i in range(target - sum(pre)): pre[i] += 1
+        ffs_list.append(pre + [255] * 6000 + igz.corpus(rng, "text", 50))
+    for cpu in ("sse", "avx", "avx2", "base"):
+      for ffs in ffs_list:
+        for level in (0, 1):
+            for wrap in (3, 4, 1):
+                if tier == "quick" and wrap == 1 and ffs is not ffs_list[0]: continue
+                scns.append(igz.scenario(len(scns), ["deflate", "deflate_stateless"][level], ffs, level=level, wrap=wrap, lbuf=3, calls=[[len(ffs), len(ffs) + 600, 0, 1]], tail_ao=1 << 16, meta={"family": "producer-other-cpu-levels", "cpu": cpu}))
     for name, inp in adler_edge_inputs(rng):
         n = len(inp)
         for level in range(4):
@@ -115,6 +142,11 @@ def run(tier, replay=None):
         vs, ps = ([rp], []) if rp["api"] in (2, 3) else ([], [rp])
     else:
         vs, ps = gen_verifier(tier, rng), gen_producer(tier, rng)
+        # ... and the probe-located form of the same situation (the marker itself staged when the first call returns; see C14), gzip / zlib wrappers
+        from props import c14
+        for s_ in c14.pending_marker_family(tier, rng, wd, 0):
+            if s_["wrap"] in (1, 3) and len(s_["inp"]) < 10000:
+                ps.append(dict(s_, scn=len(ps), meta={"family": "producer-staged-marker-then-more-input"}))
     calls = 0
     fam = {}
     accepted_mutants = 0
@@ -125,8 +157,11 @@ def run(tier, replay=None):
             fam[s["meta"]["family"]] = fam.get(s["meta"]["family"], 0) + 1
             if s["meta"]["family"].startswith("bitflip") and res[s["scn"]]["ref"] == "Valid": accepted_mutants += 1
     if ps:
-        tf = igz.run_harness(ps, wd, "c11p")
-        recs, summ, by2 = igz.merge(ps, tf)
+        recs, by2, summ = [], {}, {"calls": 0}
+        for cpu in sorted(set(s["meta"].get("cpu", "host") for s in ps)):
+            sub = [s for s in ps if s["meta"].get("cpu", "host") == cpu]
+            r_, s_, b_ = igz.merge(sub, igz.run_harness(sub, wd, "c11p-" + cpu, cpu=None if cpu == "host" else cpu))
+            recs += r_; by2.update(b_); summ["calls"] += s_.get("calls", 0)
         res2, tw2 = igz.judge("trace/TraceDeflate", recs, wd, "c11p", shards=12)
         igz.report(v, ps, res2, by2, prefix="producer:")
         calls += summ.get("calls", 0)
